@@ -477,6 +477,28 @@ type c06ptrTarget struct {
 	A *[]int64 `json:"a"`
 }
 
+// c06deepBuildWitness: the pinned witness of the open finding c06.deep-nesting-build-errors.
+func c06deepBuildWitness() (text string, alloc, bound uint64, err error) {
+	text = strings.Repeat("[", 600) + `"long"` + strings.Repeat("]", 600)
+	s, perr := avro.SchemaFromString(text)
+	if perr != nil {
+		return text, 0, 0, nil
+	}
+	var a, b runtime.MemStats
+	runtime.ReadMemStats(&a)
+	_, err = s.Codec(c06anyTarget{})
+	runtime.ReadMemStats(&b)
+	return text, b.TotalAlloc - a.TotalAlloc, uint64(c06bound(len(text), 1)), err
+}
+
+func findingDeepBuild(c *core.Ctx) string {
+	text, alloc, bound, err := c06deepBuildWitness()
+	if err != nil && alloc > bound {
+		return fmt.Sprintf("Schema.Codec allocated %d bytes refusing a %d-byte schema nested 600 deep (bound %d)", alloc, len(text), bound)
+	}
+	return ""
+}
+
 func (e *c06env) schemaAndCodec(c *core.Ctx, class, text string) bool {
 	var s avro.Schema
 	err, ok := e.call(c, "SchemaFromString", class, []byte(text), true, 1, func() error {
@@ -493,7 +515,10 @@ func (e *c06env) schemaAndCodec(c *core.Ctx, class, text string) bool {
 	targets := []any{c06anyTarget{}, &c06arrTarget{}, c06mapTarget{}, c06sliceTarget{}, c06structTarget{}, c06ptrTarget{}, struct{}{}, c06aTimeTarget{}, c06ptrTimeTarget{}}
 	for _, tg := range targets {
 		var codec avro.Codec
-		err, ok := e.call(c, "Schema.Codec", class, []byte(text), true, 1, func() error {
+		// open finding c06.deep-nesting-build-errors: the allocation of a codec build is not judged for documents
+		// nested deeper than 200 levels (panics, process death and the watchdog still apply)
+		judged := !(c.Quarantined("c06.deep-nesting-build-errors") && class == "schema-deep-nesting" && len(text) > 400)
+		err, ok := e.call(c, "Schema.Codec", class, []byte(text), judged, 1, func() error {
 			var err error
 			codec, err = s.Codec(tg)
 			return err
@@ -746,6 +771,24 @@ func runC06(c *core.Ctx, i int) {
 		}
 		c.Shape("noise|" + p.ds.S.Shape())
 	case 5: // schema text and decoder construction
+		if i%90 == 5 {
+			// documents that do nothing but open arrays, unions or objects, cut short or closed again: the work and the
+			// memory of refusing (or accepting) them is proportional to their length
+			for _, n := range []int{100, 250, 600, 1000} {
+				for _, unit := range []string{"[", `{"type":"array","items":`, `{"type":"map","values":`, `["null",`, `{"type":"record","name":"r","fields":[{"name":"f","type":`} {
+					closer := map[byte]string{'[': "]", '{': "}"}[unit[0]]
+					if strings.HasSuffix(unit, `"type":`) && unit[2] == 't' && strings.Contains(unit, "fields") {
+						closer = "}]}"
+					}
+					for _, text := range []string{strings.Repeat(unit, n), strings.Repeat(unit, n) + `"long"` + strings.Repeat(closer, n), strings.Repeat(unit, n) + `"long"` + strings.Repeat(closer, n/2)} {
+						c.Count("schema-deep-nesting", 1)
+						if !e.schemaAndCodec(c, "schema-deep-nesting", text) {
+							return
+						}
+					}
+				}
+			}
+		}
 		for _, s := range c06schemaShapes {
 			if !e.schemaAndCodec(c, "schema-wrong-shape", s) {
 				return
@@ -997,6 +1040,7 @@ func init() {
 		},
 		NumCases: func(c *core.Ctx) int { return c.Pick(4500, 90000) },
 		Run:      runC06,
+		Findings: map[string]func(c *core.Ctx) string{"c06.deep-nesting-build-errors": findingDeepBuild},
 		Floors: func(a *core.Agg) []string {
 			var u []string
 			for _, e := range []string{"Codec.Read", "Codec.Skip", "ReadFile", "SchemaFromString", "Schema.Codec", "time.StringCodec.Read"} {
